@@ -1,6 +1,11 @@
 import Genq.Props.C18
 open Genq.Files
+open Genq.Errors
 #print axioms C18_pos_string_plain
 #print axioms C18_pos_string_literal
 #print axioms C18_atoi_samples
 #print axioms C18_colon_in_filename_witness
+#print axioms C18_errorf_position_priority
+#print axioms C18_wrapped_position_survives
+#print axioms C18_validator_error_position
+#print axioms C18_outer_explicit_position_replaces_inner_witness
